@@ -648,7 +648,9 @@ func (sp *subProcess) Type() ActivityType {
 }
 
 func (sp *subProcess) Cancel() <-chan bool {
-	response := make(chan bool)
+	// buffered: whoever asked may have stopped waiting for the answer (its
+	// context is done) and the node's loop must not block on it
+	response := make(chan bool, 1)
 	sp.mch <- cancelMessage{response: response}
 	return response
 }
